@@ -113,14 +113,18 @@ func genC08(seed int64, tier string) *Scenario {
 	// a second workspace root that comes and goes (didChangeWorkspaceFolders) during the history
 	ws2 := r.Intn(5) == 0
 	ws2In := false
-	ws2Files := []string{"/ws2/x.lua", "/ws2/sub/y.lua"}
+	ws2Root := "/ws2" // beside the root; its name shares the root's as a prefix, or (below) does not
+	if ws2 && r.Intn(2) == 0 {
+		ws2Root = "/second"
+	}
+	ws2Files := []string{ws2Root + "/x.lua", ws2Root + "/sub/y.lua"}
 	folderEvent := func(add bool) Op {
 		ev := map[string]interface{}{"added": []interface{}{}, "removed": []interface{}{}}
 		k := "removed"
 		if add {
 			k = "added"
 		}
-		ev[k] = []interface{}{map[string]interface{}{"uri": "file:///ws2", "name": "ws2"}}
+		ev[k] = []interface{}{map[string]interface{}{"uri": "file://" + ws2Root, "name": "ws2"}}
 		b, _ := json.Marshal(ev)
 		return Op{Kind: "folders", Params: b}
 	}
@@ -129,10 +133,10 @@ func genC08(seed int64, tier string) *Scenario {
 			sc.Files = append(sc.Files, File{Path: n, Data: Bytes(c08Content(r, n))})
 		}
 		if r.Intn(2) == 0 {
-			sc.Folders = []string{Root, "/ws2"}
+			sc.Folders = []string{Root, ws2Root}
 			ws2In = true
 		}
-		sc.Knobs["ws2"] = true
+		sc.Knobs["ws2"] = ws2Root
 	}
 	open := map[string]bool{}
 	faulted := false
